@@ -61,6 +61,39 @@ fn req_map(h: &HubObs) -> BTreeMap<(String, u64), (u128, u128)> {
     m
 }
 
+// ======================================================================= C11 (state invariant)
+
+/// in every reachable state: a hub that still holds legacy wait-list entries is paused.
+/// (E7 worlds start paused; UpdateParams refuses to unpause and the migration unpauses
+/// only after the last entry has moved.) Also: a migration step moves at most `limit`
+/// entries and never drops one.
+pub fn c11_legacy_guard(_m: &mut Mon, ctx: &StepCtx, stats: &mut Stats, out: &mut Vec<Violation>) {
+    let (pre, post) = match (&ctx.pre.hub, &ctx.post.hub) {
+        (Some(a), Some(b)) => (a, b),
+        _ => return,
+    };
+    if post.legacy_wait_entries == 0 && pre.legacy_wait_entries == 0 {
+        return;
+    }
+    stats.check("c11_legacy_guard");
+    if post.legacy_wait_entries > 0 && !post.params.paused.unwrap_or(false) {
+        viol(out, "C11", "never_unpaused_with_legacy_entries", ctx.idx, "hub:unpaused_with_legacy_entries", format!("hub is not paused although {} legacy wait-list entries remain (after {:?})", post.legacy_wait_entries, ctx.top()));
+    }
+    if post.legacy_wait_entries > 1000 {
+        stats.probe("c11_legacy_list_beyond_default_page");
+    }
+    if post.legacy_wait_entries != pre.legacy_wait_entries {
+        if let Some((HUB, "migrate_unbond_wait_list")) = ctx.top() {
+            stats.probe("c11_migration_moved_entries");
+            if post.legacy_wait_entries > 0 {
+                stats.probe("c11_migration_partial");
+            }
+        } else {
+            viol(out, "C11", "legacy_entries_change_only_by_migration", ctx.idx, "hub:legacy_entries_changed", format!("legacy entries {} -> {} in step {:?}", pre.legacy_wait_entries, post.legacy_wait_entries, ctx.top()));
+        }
+    }
+}
+
 // ======================================================================= C07
 
 pub fn c07_claims(m: &mut Mon, ctx: &StepCtx, stats: &mut Stats, out: &mut Vec<Violation>) {
